@@ -97,23 +97,27 @@ inductive RTOut where
 
 def sGET : Bytes := [71, 69, 84]
 
-/-- `CachingRoundTripper.RoundTrip` + `cacheResponse`; `maxCache` = `maxCacheTime` in the caller's time unit -/
+/-- the miss path of `RoundTrip`: wrapped transport, then `cacheResponse`; `maxCache` = `maxCacheTime` in the caller's time unit -/
+def RCache.rtMiss (c1 : RCache) (now maxCache : Int) (key method query : Bytes) (inner : Inner) : RCache × RTOut :=
+  match inner with
+  | .fail => (c1, .netErr)
+  | .resp size cacheable =>
+    if method ≠ sGET then (c1, .net false) else
+    match cacheable with
+    | none => (c1, .net false)
+    | some t =>
+      let t' := if t > now + maxCache then now + maxCache else t
+      match c1.insert key method query size t' with
+      | .ok c2 => (c2, .net (c2.all.any (fun e => e.id = c1.nextId)))
+      | _ => (c1, .hang)
+
+/-- `CachingRoundTripper.RoundTrip` -/
 def RCache.roundTrip (c : RCache) (now maxCache : Int) (key method query : Bytes) (inner : Inner) : RCache × RTOut :=
-  let look : RCache × Option CEntry := if method = sGET then c.get now key method query else (c, none)
-  match look with
-  | (c1, some e) => (c1, .hit e)
-  | (c1, none) =>
-    match inner with
-    | .fail => (c1, .netErr)
-    | .resp size cacheable =>
-      if method ≠ sGET then (c1, .net false) else
-      match cacheable with
-      | none => (c1, .net false)
-      | some t =>
-        let t' := if t > now + maxCache then now + maxCache else t
-        match c1.insert key method query size t' with
-        | .ok c2 => (c2, .net (c2.all.any (fun e => e.id = c1.nextId)))
-        | _ => (c1, .hang)
+  if method = sGET then
+    match c.get now key method query with
+    | (c1, some e) => (c1, .hit e)
+    | (c1, none) => c1.rtMiss now maxCache key method query inner
+  else c.rtMiss now maxCache key method query inner
 
 /-- operations of the cache as the rest of the node can drive it -/
 inductive COp where
